@@ -25,9 +25,12 @@ further item re-reads all of them. Oracle: content equals the copy taken when th
 yielded, and the addresses of all held slices are mutually consistent with the frames' offsets in \
 one buffer (a moved or reallocated buffer breaks this); the process runs with an allocator that \
 poisons and quarantines freed 256-multiple blocks and always moves on realloc, so a stale slice \
-reads 0xDD. Class A (every reply of the batch was already read from the transport when the first \
-item was yielded) is judged; class B (a later reply needs another transport read) is the recorded \
-known finding and is excluded by construction and counted. One reply in ten is replaced by a \
+reads 0xDD. Class B (some transport read ends exactly at the end of a reply other than the last one - a chunk of the input ends there, or the reply ends at a multiple of the 256-byte buffer step - so \
+that zlink hands out an item while a later reply is still on the wire and needs another transport \
+read) is the recorded known finding and is excluded by construction and counted; every other \
+chunking is class A (zlink reads on until the buffered data ends at a frame boundary, so every \
+reply is in the buffer before the first item is yielded) and is judged - the class depends on the \
+input only, never on when the implementation chose to read. One reply in ten is replaced by a \
 top-level failure of the exchange (an org.varlink.service error reply, a frame that is not JSON, or \
 the peer closing): the stream must report it and end, and the items held from before must still \
 read as they did. Non-trivial = at least 2 items held \
@@ -168,7 +171,24 @@ pub fn run_case(case: &Case) -> (Class, CaseResult) {
     let mut s = std::pin::pin!(s);
     let mut held: Vec<Held<'_>> = Vec::new();
     let mut yielded = 0usize;
-    let mut class = Class::A;
+    // The class is a property of the *input*: class B = some chunk ends exactly at the end of a
+    // reply that is not the last one. Only then does zlink (which keeps reading until the buffered
+    // data ends at a frame boundary) hand out an item while a later reply is still on the wire,
+    // which is the recorded finding. With any other chunking every reply has been read before the
+    // first item is yielded; an implementation that yields earlier all the same is not excused -
+    // the items it hands out must stay intact like any others.
+    let mut frame_end = 0usize;
+    let mut boundary_cut = false;
+    for (f, _) in &frames {
+        frame_end += f.len() + 1;
+        // the transport is never offered more than the free part of the receive buffer, which
+        // grows in 256-byte steps once it is full: every multiple of 256 is a read boundary too
+        if frame_end < stream.len() && (case.cuts.contains(&frame_end) || frame_end % 256 == 0) {
+            boundary_cut = true;
+        }
+    }
+    let class = if boundary_cut { Class::B } else { Class::A };
+    let mut early_yield = false;
     let total = stream.len() as u64;
     let mut polls = 0;
     loop {
@@ -203,7 +223,7 @@ pub fn run_case(case: &Case) -> (Class, CaseResult) {
                     other => return (class, Err(Fail::new("harness", format!("item {idx}: {other:?}")))),
                 };
                 if idx == 0 && handle.read.borrow().bytes < total {
-                    class = Class::B;
+                    early_yield = true;
                 }
                 if let Some(slice) = slice {
                     if idx >= offs.len() {
@@ -231,6 +251,7 @@ pub fn run_case(case: &Case) -> (Class, CaseResult) {
     if held.len() != expect_items || yielded != expect_items + term_at.is_some() as usize {
         return (class, Err(Fail::new("harness", format!("{} items ({} with data) for {} replies", yielded, held.len(), case.replies.len()))));
     }
+    let _ = early_yield;
     (class, Ok(()))
 }
 
